@@ -19,7 +19,7 @@ def register(PROPS):
         'rule': 'case = one pair of first two events; everything below it is explored exhaustively to the depth bound with a visited table per case; '
                 'states/transitions/traces are summed over cases (a state reached under two different first pairs is counted twice); non-trivial = '
                 'the subtree holds >= 2 distinct states',
-        'bound': {'quick': 'depth 5 at T0 = 2030-01-01 (drift run depth 4; a further run at T0 = 2028-03-01, a leap-year March, depth 4; at T0 = 2037-02-05T06:28:10Z, six seconds before the seconds since 1901 pass 2^32, depth 4; at T0 = 2040-03-01 depth 3); narrow alphabet (one UID, the two- and three-occurrence schedules, ADD/replace, CANCEL, on-time TICK, EXIT) depth 12; the same plus a second UID with six occurrences and MAX-SIMUL 1 (starts with the no-run flag happen legitimately) depth 8; three UIDs whose hashes force the task table to grow by more than double, one schedule each, depth 6', 'thorough': 'depth 7 (drift run depth 6, leap-March and 2037 runs depth 5, 2040 run depth 4), narrow alphabet depth 20'},
+        'bound': {'quick': 'depth 5 at T0 = 2030-01-01 (drift run depth 4; a further run at T0 = 2028-03-01, a leap-year March, depth 4; at T0 = 2037-02-05T06:28:10Z, six seconds before the seconds since 1901 pass 2^32, depth 4; at T0 = 2040-03-01 depth 3); narrow alphabet (one UID, the two- and three-occurrence schedules, ADD/replace, CANCEL, on-time TICK, EXIT) depth 12; the same plus a second UID with six occurrences and MAX-SIMUL 1 (starts with the no-run flag happen legitimately) depth 8; three UIDs whose hashes force the task table to grow by more than double, one schedule each, depth 6; linear histories of 65535, 65536, 65537 and 200 occurrences a minute apart followed to the end (one real start per occurrence, the task gone afterwards)', 'thorough': 'depth 7 (drift run depth 6, leap-March and 2037 runs depth 5, 2040 run depth 4), narrow alphabet depth 20'},
         'counter_map': {'states': 'states', 'transitions': 'transitions', 'traces_validated_against_impl': 'traces'},
         'drivers': [
             D('e2_explore', ['prop=C04', 'depth=5', '--case-timeout', '60'], ['prop=C04', 'depth=7', '--case-timeout', '300'], label='depth'),
@@ -28,6 +28,7 @@ def register(PROPS):
             D('e2_explore', ['prop=C04', 'depth=3', '--case-timeout', '60'], ['prop=C04', 'depth=4', '--case-timeout', '120'], label='asan', variant='asan'),
             D('e2_explore', ['prop=C04', 'depth=4', 't0=2117428090', '--case-timeout', '60'], ['prop=C04', 'depth=5', 't0=2117428090', '--case-timeout', '300'], label='2^32-s-since-1901'),
             D('e2_explore', ['prop=C04', 'depth=3', 't0=2214172800', '--case-timeout', '60'], ['prop=C04', 'depth=4', 't0=2214172800', '--case-timeout', '300'], label='year-2040'),
+            D('e2_explore', ['prop=C04', 'mode=long', '--case-timeout', '300'], label='long-series', shards=4),
             D('e2_explore', ['prop=C04', 'alpha=narrow2', 'depth=8', '--case-timeout', '120'], ['prop=C04', 'alpha=narrow2', 'depth=10', '--case-timeout', '600'], label='narrow-with-limited-task'),
             D('e2_explore', ['prop=C04', 'uids=collide', 'depth=6', '--case-timeout', '120'], ['prop=C04', 'uids=collide', 'depth=8', '--case-timeout', '600'], label='colliding-uids'),
             D('e2_explore', ['prop=C04', 'alpha=narrow', 'depth=12', '--case-timeout', '120'], ['prop=C04', 'alpha=narrow', 'depth=20', '--case-timeout', '600'], label='narrow-deep'),
@@ -41,7 +42,7 @@ def register(PROPS):
         'level': 'model_checking',
         'technique': 'explicit-state exploration of the real echsd against a reference model of per-task concurrency limits',
         'claim': 'Task X (MAX-SIMUL 1, 2 or unset) and task Y (unset or 1), both SECONDLY with six occurrences: every history up to the stated '
-                 'depth over {ADD/replace, CANCEL, TICK on-time/idle/late, a TICK during which the start of the one due task fails before a child exists (pipe() answers EMFILE, or posix_spawn() returns EAGAIN; the stack is filled with a fixed pattern first so that an uninitialised pid reads the same every time), EXIT of any live job (each job individually)} is executed; a start must be for real '
+                 'depth over {ADD/replace, CANCEL, TICK on-time/idle/late, a TICK during which the start of the one due task fails before a child exists (pipe() answers EMFILE, or posix_spawn() returns EAGAIN; the stack is filled with a fixed pattern first so that an uninitialised pid reads the same every time), EXIT of any live job (each job individually), STOP+CONT of a live job (which is still running afterwards)} is executed; a start must be for real '
                  'iff fewer than N jobs of that task are alive, otherwise carry the no-run flag; every real job must be watched; the other task\'s '
                  'starts are judged by its own limit only.  A linear sweep runs one fill / refuse / exit / run-again history for every N = 1..62, two histories in which a task WITHOUT a limit has 64 / 65 jobs running when it is cancelled and a limited task takes over while the old jobs exit, and three with a calendar-level limit (overridden by the event\'s own, or inherited).',
         'note': E2_NOTE + '  Real process lifetimes are replaced by explicit EXIT events; echsx\'s handling of the no-run flag is C13/C14 territory.',
@@ -52,6 +53,7 @@ def register(PROPS):
             D('e2_explore', ['prop=C12', 'depth=6', '--case-timeout', '60'], ['prop=C12', 'depth=8', '--case-timeout', '300'], label='depth'),
             D('e2_explore', ['prop=C12', 'mode=sweep', '--case-timeout', '60'], label='sweep-N-1..62+unlimited+inherited'),
             D('e2_explore', ['prop=C12', 'depth=4', '--case-timeout', '60'], ['prop=C12', 'depth=5', '--case-timeout', '120'], label='asan', variant='asan'),
+            D('e2_explore', ['prop=C12', 'uids=collide', 'depth=6', '--case-timeout', '120'], ['prop=C12', 'uids=collide', 'depth=7', '--case-timeout', '600'], label='colliding-uids'),
             D('e2_explore', ['prop=C12', 'alpha=narrow', 'depth=9', '--case-timeout', '120'], ['prop=C12', 'alpha=narrow', 'depth=11', '--case-timeout', '600'], label='narrow-deep'),
         ],
         'assumptions': ['unset MAX-SIMUL means unlimited'],
@@ -64,7 +66,7 @@ def register(PROPS):
                  '{ADD with owner field absent / = self / = other (as a number and as a user name) / a number that no user has, two instructions in one request, CANCEL (also of unknown and foreign UIDs), '
                  'GET /queue (own and another user\'s), GET /sched, TICK} is executed; the number and kind of REQUEST-STATUS replies, the task '
                  'table with owners, the bodies of the listings (no foreign or stale UID, own queued UIDs present) and the SETUID of every started '
-                 'job are compared with a map<UID, (owner, schedule)> model.  Linear "busy" histories reach what depth cannot: 17 acknowledged requests between two checkpoints (the 17th by the same or by another user) followed by the listing, and 300 (thorough also 1500) distinct UIDs of one user next to 3 of another in one daemon life - queue files and listings must hold exactly the submitted UIDs, every UID must be cancellable by its owner, nothing may be left; 40 clients connected at the same time (each has sent half of its request when the others send theirs) must each get the reply to their own request and have their task filed under their own uid.',
+                 'job are compared with a map<UID, (owner, schedule)> model.  Linear "busy" histories reach what depth cannot: 17 acknowledged requests between two checkpoints (the 17th by the same or by another user) followed by the listing, and 300 (thorough also 1500) distinct UIDs of one user next to 3 of another in one daemon life - queue files and listings must hold exactly the submitted UIDs, every UID must be cancellable by its owner, nothing may be left; 40 clients connected at the same time (each has sent half of its request when the others send theirs) must each get the reply to their own request and have their task filed under their own uid; requests of 44 instructions (replies beyond 4096 octets) with the first UID growing by one character over 128 rounds must find the status line of every instruction in the reply.',
         'note': E2_NOTE + '  Task oids are 32-bit hashes of the UID; the multi-gigabyte table growth reachable with hashes that agree in 25+ low bits is outside the alphabet.',
         'rule': 'as C04',
         'bound': {'quick': 'depth 4', 'thorough': 'depth 5'},
@@ -72,8 +74,8 @@ def register(PROPS):
         'drivers': [
             D('e2_explore', ['prop=C11', 'depth=4', '--case-timeout', '120'], ['prop=C11', 'depth=5', '--case-timeout', '600'], label='depth'),
             D('e2_explore', ['prop=C11', 'depth=2', '--case-timeout', '120'], ['prop=C11', 'depth=3', '--case-timeout', '300'], label='asan', variant='asan'),
-            D('e2_explore', ['prop=C11', 'mode=busy', 'variants=5', 'skip=3', '--case-timeout', '120'], ['prop=C11', 'mode=busy', 'variants=5', '--case-timeout', '600'], label='busy', shards=5),
-            D('e2_explore', ['prop=C11', 'mode=busy', 'variants=5', 'skip=3', '--case-timeout', '300'], label='busy-asan', variant='asan', shards=5),
+            D('e2_explore', ['prop=C11', 'mode=busy', 'variants=6', 'skip=3', '--case-timeout', '120'], ['prop=C11', 'mode=busy', 'variants=6', '--case-timeout', '600'], label='busy', shards=6),
+            D('e2_explore', ['prop=C11', 'mode=busy', 'variants=6', 'skip=3', '--case-timeout', '300'], label='busy-asan', variant='asan', shards=6),
         ],
         'assumptions': ['what root may submit on behalf of others is not in the alphabet (the property does not speak about it)',
                         'a request for another user\'s queue may be answered with a refusal or with the caller\'s own view, never with foreign UIDs'],
